@@ -189,11 +189,138 @@ def dumb_leg(run, rng, tier, drv):
     return {"plain_console_cases": len(lines), "plain_console_disagreements": len(bad), "plain_console_blocks": sum(len(c[1]) for c in cases)}
 
 
+def gen_fs_case(rng):
+    """a scratch tree, the directory n2 runs in, and what n2 does before commands start: create the parent directories of a
+    step's outputs (names through the loader), write a response file.  Names: nested, shared parents, leading `..`, absolute,
+    respelled; regular files in the way."""
+    import posixpath
+    depth = rng.choice([0, 1, 2, 2])
+    cwd = ["w", "c"][:depth]
+    tree = {}                                   # location (tuple) -> None (dir) | bytes (file)
+    for i in range(1, depth + 1):
+        tree[tuple(cwd[:i])] = None
+    names = ["a", "b", "d", "f", "x", "o"]
+    bases = [(), tuple(cwd)] + ([tuple(cwd[:1])] if depth == 2 else [])
+    for _ in range(rng.randint(0, 5)):          # directories and files already there
+        base = rng.choice(bases)
+        loc = base
+        for _ in range(rng.randint(1, 3)):
+            loc = loc + (rng.choice(names),)
+            if loc in tree and tree[loc] is not None:
+                break
+            if loc not in tree:
+                if rng.random() < 0.3:
+                    tree[loc] = bytes([rng.randrange(256) for _ in range(rng.randint(0, 3))])
+                    break
+                tree[loc] = None
+    def name(rsp=False):
+        comps = [rng.choice(names) for _ in range(rng.randint(1, 4))]
+        r = rng.random()
+        pre = ""
+        if r < 0.15 and depth:
+            pre = "../" * rng.randint(1, depth)
+        elif r < 0.3:
+            pre = "/"
+        n = pre + "/".join(comps)
+        q = rng.random()
+        if q < 0.08:
+            n = n.replace("/", "//", 1) if not n.startswith("/") else n
+        elif q < 0.16:
+            n = "./" + n if not pre else n
+        elif q < 0.24 and len(comps) > 1:
+            n = pre + comps[0] + "/../" + "/".join(comps)
+        elif q < 0.3:
+            n = n + "/"
+        elif q < 0.34 and rsp:
+            n = pre + comps[0] + "/./" + "/".join(comps[1:] or ["r"])
+        return n.encode()
+    ops, meta = [], []
+    for _ in range(rng.randint(1, 4)):
+        if rng.random() < 0.65:
+            outs = [name() for _ in range(rng.randint(1, 5))]
+            if rng.random() < 0.3:
+                outs.append(outs[0].rsplit(b"/", 1)[0] + b"/sib" if b"/" in outs[0].strip(b"/") else b"sib")
+            ops.append("D " + " ".join(hexs(o) for o in outs))
+            meta.append(("D", outs))
+        else:
+            n, c = name(True), bytes([rng.randrange(256) for _ in range(rng.randint(0, 6))])
+            ops.append("R %s %s" % (hexs(n), hexs(c)))
+            meta.append(("R", n, c))
+    ents = []
+    for loc in sorted(tree, key=lambda l: (len(l), l)):
+        pth = "/".join(loc).encode()
+        ents.append("D %s" % hexs(pth) if tree[loc] is None else "F %s %s" % (hexs(pth), hexs(tree[loc])))
+    return "%s ; %s ; %s" % (hexs("/".join(cwd).encode()), ",".join(ents), ",".join(ops)), (cwd, tree, meta)
+
+
+def fs_monitor(run, line, info, r):
+    """independent of the model: on the implementation's own result"""
+    import posixpath
+    cwd, tree, meta = info
+    where = {"suite": "fs", "case": line, "result": r[:400]}
+    if " | " not in r and not r.endswith(" |"):
+        run.report_failure(None, "preparing the file system for a command did not return: %s" % r[:160], where)
+        return
+    res, _, listing = r.partition(" |")
+    res = res.split()
+    final = {}
+    for it in listing.strip().split(","):
+        w = it.split()
+        if not w:
+            continue
+        final[unhexs(w[1]).decode("latin-1")] = None if w[0] == "D" else unhexs(w[2] if len(w) > 2 else "-")
+    def loc(n):
+        n = n.decode("latin-1")
+        full = n if n.startswith("/") else "/" + "/".join(cwd) + "/" + n
+        return posixpath.normpath(full).lstrip("/")
+    written = {}
+    for m, e in zip(meta, res):
+        if m[0] == "D" and e == "ok":
+            for o in m[1]:
+                par = posixpath.dirname(loc(o))            # normpath drops a trailing separator, like Path::parent
+                if par and final.get(par, b"") is not None:
+                    run.report_failure(None, "create_parent_dirs reported success but the directory of output %r does not exist" % o, where)
+                    return
+        if m[0] == "R" and e == "ok":
+            written[loc(m[1])] = m[2]
+    for l, c in written.items():
+        if final.get(l) != c:
+            run.report_failure(None, "write_rspfile reported success but the response file %r does not hold the evaluated content" % l, where)
+            return
+    for l0, c0 in tree.items():
+        l = "/".join(l0)
+        if l in written:
+            continue
+        if l not in final or final[l] != c0:
+            run.report_failure(None, "preparing the file system changed or removed %r, which no step names" % l, where)
+            return
+    for l, c in final.items():
+        if c is not None and l not in written and tuple(l.split("/")) not in tree:
+            run.report_failure(None, "a regular file %r appeared that nothing wrote" % l, where)
+            return
+
+
+def fs_leg(run, rng, tier, drv):
+    har, out = build_harness()
+    if har is None:
+        run.tie("harness build", out[-2000:])
+        return {}
+    cases = [gen_fs_case(rng) for _ in range(1500 if tier == "quick" else 15000)]
+    lines = [c[0] for c in cases]
+    impl, model, bad = differential(run, "create_parent_dirs / write_rspfile on a scratch tree (Model/Fs.v)", har, drv, "fs", "fs", lines)
+    errs = {}
+    for (l, info), r in zip(cases, impl):
+        fs_monitor(run, l, info, r)
+        for e in r.partition(" |")[0].split():
+            errs[e] = errs.get(e, 0) + 1
+    return {"fs_cases": len(lines), "fs_disagreements": len(bad), "fs_operation_results": errs}
+
+
 def main(tier, seed, replay=None):
     run = Run(PROP, tier, seed, "proof")
     rng = random.Random(seed)
     info, problems = proof_gate(PROP, THEOREMS, thorough=(tier == "thorough"))
-    info2, problems2 = proof_gate_multi(["C16Task", "C16Dumb"], thorough=(tier == "thorough"))
+    info2, problems2 = proof_gate_multi(["C16Task", "C16Dumb", "C16Dirs"], thorough=(tier == "thorough"))
     problems = problems + problems2
     info["obligations"] = info.get("obligations", 0) + info2.get("obligations", 0)
     info["discharged"] = info.get("discharged", 0) + info2.get("discharged", 0)
@@ -427,6 +554,8 @@ def main(tier, seed, replay=None):
     stats.update(task_leg(run, rng, tier, drv))
     # ---- E. the plain console's printing against Model/Dumb.v ----
     stats.update(dumb_leg(run, rng, tier, drv))
+    # ---- F. directories of outputs and response files against Model/Fs.v ----
+    stats.update(fs_leg(run, rng, tier, drv))
     run.coverage.update(info)
     run.coverage.update({
         "model_vs_impl_disagreements": stats.get("run_task_disagreements", 0) + stats.get("plain_console_disagreements", 0),
